@@ -83,14 +83,14 @@ F3 = "stale_jacobian_of_cache_hit_at_linearize_execute_false"
 def _op(n_reopen=1):
     return st.fixed_dictionaries({
         "op": st.sampled_from(["exec"] * 9 + ["lin"] * 7 + ["diff"] * 2 + ["setdef", "clear"] + ["reopen"] * n_reopen),
-        "again": st.sampled_from([False, False, True]),
+        "again": st.sampled_from([False, False, False, True, True]),
         "base": st.integers(0, 3),
         "pert": st.sampled_from([0, 0, 0, 1, 1, 2, 3]),
         "mask": st.sampled_from([15, 15, 15, 0, 0, 1, 2, 3, 4, 5, 6, 7, 8, 11, 13, 14]),
         "held": st.booleans(),
         "all": st.booleans(),
         "exe": st.booleans(),
-        "free": st.booleans(),  # execute=False also allowed at an input other than the one of the previous call
+        "free": st.sampled_from([True, True, False]),  # execute=False also allowed at an input other than the one of the previous call
         "ins": st.integers(0, 14),
         "outs": st.integers(0, 2),
         "var": st.integers(0, 2),
@@ -122,7 +122,7 @@ def histories(caches, n_reopen=1):
         "scalar_out": st.booleans(),      # a float-typed (non-array) output
         "a_default": st.booleans(),       # every input has a default: execute({}) is reachable
         "rev_defaults": st.booleans(),    # defaults inserted in the reverse of the grammar order
-        "inplace_body": st.booleans(),    # the body of a self-coupled discipline updates the received array of y in place
+        "inplace_body": st.sampled_from([False, False, True]),    # the body of a self-coupled discipline updates the received array of y in place
     })
     return st.fixed_dictionaries({
         "cfg": cfg,
@@ -597,6 +597,11 @@ class Machine:
         self.last_key = kx
         if not lin or execute:
             self.has_outputs = True
+            if getattr(self, "jacobian_first", None) == kx and self.kind != "none":
+                self.flags["outputs_requested_right_after_their_jacobian_was_cached_first"] += 1
+            self.jacobian_first = None
+        elif not same_point and ran == 0:
+            self.jacobian_first = kx  # a Jacobian was just cached for an input that was not the executed one
 
     def diff(self, step):
         self.diff_ins = sorted(set(self.diff_ins) | set(step["ins"]))
@@ -757,6 +762,6 @@ ORACLES = {
 
 
 def run(ctx):
-    ctx.drive("transparency_light", histories(["none", "simple", "simple"]), case_transparency, quick=200, thorough=3000)
-    ctx.drive("transparency_memory", histories(["memory_shared", "memory"]), case_transparency, quick=200, thorough=3000)
-    ctx.drive("transparency_hdf5", histories(["hdf5"], n_reopen=4), case_transparency, quick=170, thorough=2500)
+    ctx.drive("transparency_light", histories(["none", "simple", "simple"]), case_transparency, quick=180, thorough=3000)
+    ctx.drive("transparency_memory", histories(["memory_shared", "memory"]), case_transparency, quick=180, thorough=3000)
+    ctx.drive("transparency_hdf5", histories(["hdf5"], n_reopen=4), case_transparency, quick=160, thorough=2500)
